@@ -137,3 +137,8 @@ PROPS["C17"]["env"] = {"VERIF_RUN_TIMEOUT_S": 10}
 PROPS["C17"]["also"] = [{"engine": "jsonconc", "race": False, "runs_quick": 150, "runs_thorough": 20000},
                         {"engine": "jsonconc", "race": True, "runs_quick": 100, "runs_thorough": 10000}]
 PROPS["C17"]["rule"] += "; a writer that fails in mid-answer is injected before some requests (its own answer is not asserted, the following ones are); supplementary phases answer 2-4 complete requests concurrently as tasks under the seeded scheduler and in the -race binary"
+
+# C06 through the tool chain: ow-sim run in two parts with -final-states / -initial-states files
+PROPS["C06"]["also"] = [{"engine": "owsimsplit", "race": False, "runs_quick": 250, "runs_thorough": 30000}]
+PROPS["C06"]["rule"] += "; 35% of the cases hold 2-3 cells (state vectors of different width zero padded); an additional phase runs seeded ow-sim model graphs once for the whole period and once as two consecutive ow-sim runs connected by -final-states/-initial-states files on the fake disk, under the seeded scheduler"
+PROPS["C06"]["real"] = PROPS["C06"]["real"] + ["cmd/ow-sim (hot-start phase)"]
